@@ -203,6 +203,40 @@ def run(ck):
         failing.append(({"tag": k[0], "attr": k[1], "level": k[2], "doc_value_on_element": srcs[k][0], "doc_value_moved": srcs[k][1],
                          "a_bypassing_accessor_site_explains_it": explained},
                         "%s/%s: moving the value to '%s' changes the rendered body" % k))
+    # the same matrix with the value EQUAL to the component's built-in default (a component that tests "is the attribute written on
+    # the node" instead of the resolved value treats sources differently exactly there)
+    comp2tag = dict(facts["comp_tags"])
+    djobs, dmeta = [], []
+    for dft in facts["defaults"]:
+        tag = comp2tag.get(dft["comp"])
+        if not tag or not dft["val"] or dft["dynamic"] or dft["attr"] not in facts["allowed_table"].get(tag, {}) or (tag, dft["attr"]) in known:
+            continue
+        for level in ("tagdef", "class"):
+            na = N(tag, {dft["attr"]: dft["val"]})
+            context(tag, dft["attr"], na)
+            nb = N(tag, {"mj-class": "dc"} if level == "class" else {})
+            context(tag, dft["attr"], nb)
+            a, b = place(tag, na), place(tag, nb)
+            entry = N(tag, {dft["attr"]: dft["val"]}) if level == "tagdef" else N("mj-class", {"name": "dc", dft["attr"]: dft["val"]})
+            b["children"].insert(0, N("mj-head", kids=[N("mj-attributes", kids=[entry])]))
+            djobs += [{"id": len(djobs), "src": docgen.to_mjml(a)}, {"id": len(djobs) + 1, "src": docgen.to_mjml(b)}]
+            dmeta.append((tag, dft["attr"], level, dft["val"]))
+    dres, _ = common.run_jobs(hb, "render", djobs)
+    default_bad = set()
+    for i, (tag, attr, level, val) in enumerate(dmeta):
+        ra, rb = dres.get(2 * i), dres.get(2 * i + 1)
+        ck.count("default-valued|%s|%s|%s" % (tag, attr, level), True, tags=["default-valued-cell"])
+        if ra and rb and ra.get("html") and rb.get("html") and body_of(ra["html"]) != body_of(rb["html"]):
+            kk = (tag + "#default", attr)
+            default_bad.add((tag, attr))
+            if kk in known:
+                if kk not in announced:
+                    announced.add(kk)
+                    ck.known("%s: %s" % (known[kk]["id"], known[kk]["what"]))
+            else:
+                failing.append(({"tag": tag, "attr": attr, "level": level, "value": val, "doc_value_on_element": djobs[2 * i]["src"], "doc_value_moved": djobs[2 * i + 1]["src"]},
+                                "%s/%s: a value equal to the built-in default renders differently when it comes from '%s'" % (tag, attr, level)))
+    default_vals = {(comp2tag.get(dft["comp"]), dft["attr"]): dft["val"] for dft in facts["defaults"]}
     ck.sample({"cell": ["mj-text", "color", "tagdef"], "docs": [cells[("mj-text", "color")]["tagdef:A"][2], cells[("mj-text", "color")]["tagdef:B"][2]]})
     # random whole documents rewritten by inlining their head defaults
     g = docgen.Gen(ck.rng, attr_prob=0.2)
@@ -210,7 +244,7 @@ def run(ck):
     docs = []
     for _ in range(150 if ck.quick else 4000):
         d = g.document(with_head=True)
-        d2 = inline_defaults(d, frozenset(known))
+        d2 = inline_defaults(d, frozenset(known), frozenset((t, a, default_vals.get((t, a))) for t, a in default_bad))
         if d2 is None:
             continue
         docs.append((d, d2))
@@ -315,7 +349,7 @@ def store_tie(ck, hb, failing, ok):
             break
 
 
-def inline_defaults(d, skip=frozenset()):
+def inline_defaults(d, skip=frozenset(), skip_values=frozenset()):
     """move every <mj-attributes><TAG a=v/> default onto the elements of that tag that do not set a themselves"""
     d2 = copy.deepcopy(d)
     moved = []
@@ -334,10 +368,10 @@ def inline_defaults(d, skip=frozenset()):
                 for e in docgen.walk(d2):
                     if e["tag"] == c["tag"] and e is not c and not in_head(d2, e):
                         for a, v in c["attrs"].items():
-                            if a not in e["attrs"] and (c["tag"], a) not in skip:
+                            if a not in e["attrs"] and (c["tag"], a) not in skip and (c["tag"], a, v) not in skip_values:
                                 e["attrs"][a] = v
                                 moved.append((c["tag"], a))
-                rest = {a: v for a, v in c["attrs"].items() if (c["tag"], a) in skip}
+                rest = {a: v for a, v in c["attrs"].items() if (c["tag"], a) in skip or (c["tag"], a, v) in skip_values}
                 if rest:
                     keep.append(dict(c, attrs=rest))     # listed known cells stay where they are
             n["children"] = keep
